@@ -7,7 +7,16 @@ props = [json.loads(l) for l in open(os.path.join(V, "properties.jsonl"))]
 ABM_TECH = "TLA+ spec (spec/Abm.tla) + TLC exhaustive invariants; TLC-generated behaviours (all short histories + long random ones) replayed into the implementation with the observation compared after every action"
 SRV_TECH = "TLA+ spec (spec/Server.tla) + TLC exhaustive invariants/action properties; TLC-generated request histories replayed into a real BptkServer (Flask test client, controlled clock, FileAdapter on a scratch directory) with every response compared"
 EXPR_TECH = "TLA+ spec (spec/Expr.tla + spec/Rat.tla: expression trees, exact rational reference semantics, concrete-syntax renderers) enumerated exhaustively by TLC; every enumerated tree evaluated by the implementation and compared with the spec's value"
+SD_TECH = "TLA+ spec (spec/SdModel.tla over spec/Rat.tla: explicit-Euler state machine with exact rational arithmetic, EulerRelation/FlowsNonNegative/GridExact checked by TLC); every TLC-generated trajectory replayed into the implementation and compared element by element at every grid time"
 CHECKS = {
+ "C01": dict(cat="model_checking", ref="6/C01",
+    text="spec/SdModel.tla: one Euler step per transition for a reference family (4 stocks with non-negative and bidirectional in/outflows, first-order and constant outflows, functions of elements written directly in stock equations, converters, lookup over TIME and over a stock, delay with/without initial value, smooth, trend, step, pulse) over parameter sets with rising/falling/sign-changing inputs and run specs start in {0,1,.5,2,..} x dt in {1,2,.5,.25,.2,.1,...}; each trajectory is built with the SD DSL (several spellings of the same mathematics) and compared at three observation points: Model.evaluate_equation, bptk.run_scenarios(df), Element.plot(return_df=True)",
+    note="values beyond the spec's rational range are skipped (counted); trend initial average = DSL initial_value argument; transcendental / random built-ins are outside this technique (DESIGN 9)",
+    tech=SD_TECH),
+ "C04": dict(cat="translation_validation", ref="6/C04",
+    text="the SdModel.tla trajectories of the same family rendered as XMILE documents (stocks with 1-2 inflows and 0-2 outflows, non_negative and bidirectional flows, auxiliaries, graphical functions with xscale and with explicit uneven xpts over TIME and over a stock, IF/MAX spellings) with dt spelled as decimal and as reciprocal; each document is compiled with compile_xmile and every stock/flow/auxiliary compared with the Euler trajectory at every grid time, then compared with the same structure built in the SD DSL",
+    note="XMILE built-ins DELAY/SMTH/TREND/STEP/PULSE are not part of this property; the 'source' scenario-manager channel is exercised under C07",
+    tech=SD_TECH + " (programs = generated XMILE documents; second oracle: the DSL twin)"),
  "C10": dict(cat="model_checking", ref="6/C10",
     text="spec/Arr.tla: exact results (module Rat) of element-wise + - * / between arrays of equal shape and between array and scalar in both operand orders, the dot product in its vector.vector, matrix.vector, vector.matrix and matrix.matrix forms, and sum, product, mean, median, variance, rank (every rank up to beyond the size) and size, with the shape rules that make an operation invalid; TLC enumerates every shape pair up to 3x3 (1012 cases, DotShapeOK checked); each case is built with indexed and with named arrays, scalar operands as elements and as literals, plus equal-shaped operands with different index names, assigned to a converter and read back entry by entry; every spec result is also cross-checked against numpy itself",
     note="dimensions 1..3, integer entries; stddev compared through the exact variance; a valid operation the DSL rejects with an exception is counted but is not a wrong value",
